@@ -1,3 +1,4 @@
+import EdpVerif.Generated.Misc
 import EdpVerif.Lemmas.Recv
 import EdpVerif.Props.C09
 import EdpVerif.Generated.Control
@@ -455,5 +456,21 @@ theorem C06_fragment_id_zero_rejected (x : Ext) (tbl : Control.Table) (now : Nat
   · have := decodeFragmentCont_ok seq 0 rest hs (by omega)
     simp only [fragCont, List.append_assoc] at this ⊢
     simp [recv, dispatch, recvFragCont, this]
+
+/-- The state the receive model carries IS the state the code keeps (regenerated from the source on every run):
+`Connection` has exactly the configuration, the handshake machine (the gate), the transport (two socket halves, framer,
+deframer, timeout — no buffer that survives a call), the atom cache (`St.cache`: the header-position table `atoms` and
+the `(segment, index)` keyed `slots`) and the fragment assembler (`St.asm`); nothing else is remembered between two
+receive calls, in the struct or process-wide. -/
+theorem C06_state_is_the_sources_state :
+    Edp.Gen.STRUCT_Connection =
+      ["config:ConnectionConfig", "handshake:HandshakeStateMachine", "transport:FramedTransport", "atom_cache:AtomCache",
+       "fragment_assembler:FragmentAssembler"]
+    ∧ Edp.Gen.STRUCT_FramedTransport =
+      ["read_half:Option<OwnedReadHalf>", "write_half:Option<OwnedWriteHalf>", "framer:MessageFramer",
+       "deframer:MessageDeframer", "timeout:Duration"]
+    ∧ Edp.Gen.STRUCT_MessageFramer = ["mode:FrameMode"] ∧ Edp.Gen.STRUCT_MessageDeframer = ["mode:FrameMode"]
+    ∧ Edp.Gen.STRUCT_AtomCache = ["atoms:HashMap<u8,Atom>", "slots:HashMap<(u8,u8),Atom>"]
+    ∧ Edp.Gen.PROCESS_WIDE_STATE = [] := by decide
 
 end Edp.Props.C06
